@@ -63,7 +63,7 @@ Example C05_segment_symbols_example :
      "ovl_a_alloc_VRAM_END"; "ovl_a_alloc_VRAM_SIZE"; "ovl_a_noload_VRAM";
      "ovl_a_BSS_START"; "ovl_a_BSS_END"; "ovl_a_BSS_SIZE"; "ovl_a_noload_VRAM_END"; "ovl_a_noload_VRAM_SIZE";
      "ovl_a_VRAM_END"; "ovl_a_VRAM_SIZE"; "ovl_a_ROM_END"; "ovl_a_ROM_SIZE"].
-Proof. eexists. eexists. split; vm_compute; reflexivity. Qed.
+Proof. eexists. eexists. split; [vm_compute; reflexivity|]. vm_compute. reflexivity. Qed.
 
 Local Open Scope Z_scope.
 
